@@ -237,8 +237,9 @@ func verifC15Check(t reflect.Type, p string) {
 // single: a struct with 0..1 fields, all 7 tag shapes, up to 3 further type
 // nodes below the field (thorough 4) — depth;
 // pair:   a struct with 0..2 fields, 2 tag shapes (none / name+omitempty), up
-// to 2 further nodes (thorough 3) — order, sharing, the same type twice.
-func verifC15Symbolic(maxFields, tags, nodes int) {
+// to 2 further nodes (thorough 3) — order, sharing, the same type twice, and
+// the history generate / register a type inside / generate again.
+func verifC15Symbolic(maxFields, tags, nodes int, history bool) {
 	verifNoValidate()
 	if !verifSymbolic() {
 		verifReach("end")
@@ -250,7 +251,13 @@ func verifC15Symbolic(maxFields, tags, nodes int) {
 	ns := verifTypeNodes("t", nodes)
 	root := ns[0]
 	verifAssume(root.Kind() == reflect.Struct)
-	switch verifChoice("registered", 3) {
+	reg := verifChoice("registered", 3)
+	if history && reg != 0 && verifChoice("generated-before-registration", 2) == 1 {
+		// history: a schema is generated, then a type inside it is registered,
+		// then it is generated again (a late RegisterCodecs / RegisterSchema)
+		schemaForType(root)
+	}
+	switch reg {
 	case 1:
 		rs := Schema{Type: "string"}
 		RegisterSchema(ns[1], rs)
@@ -269,7 +276,7 @@ func verifHarness_C15_symbolic_single() {
 	if verifThorough() {
 		n = 5
 	}
-	verifC15Symbolic(1, 7, n)
+	verifC15Symbolic(1, 7, n, false)
 }
 
 func verifHarness_C15_symbolic_pair() {
@@ -277,7 +284,7 @@ func verifHarness_C15_symbolic_pair() {
 	if verifThorough() {
 		n = 4
 	}
-	verifC15Symbolic(2, 2, n)
+	verifC15Symbolic(2, 2, n, true)
 }
 
 type verifRecursive struct {
